@@ -168,6 +168,10 @@ TEMPLATES = {
     "units": "a = 1 <m{c}s>\nEND\n",
     "between-statements": "a = 1\n{c}\nb = 2\nEND\n",
     "second-line-string": 'a = 1\nbb = "q{c}"\nEND\n',
+    "after-begin-keyword": "a = 1\nGROUP {c}= g\nb = 2\nEND_GROUP\nEND\n",
+    "after-end-keyword": "a = 1\nGROUP = g\nb = 2\nEND_GROUP {c}= g\nc = 3\nEND\n",
+    "before-units": "a = 1 {c}<m>\nb = 2\nEND\n",
+    "in-sequence": "a = (1, {c}2)\nb = 2\nEND\n",
     "after-END": "a = 1\nEND\n{c}",
 }
 STRUCTURAL = set("&<>'{},[]=!#()%+\";~| \t\n\r\v\f\0/*-:.")
